@@ -63,7 +63,7 @@ Definition ex_e : expr :=
 Definition ex_env : env := fun i => match i with O => 0 | S O => 4 | _ => -4 end.
 Example C01_example :
   wf_expr ex_e = true /\ denote ex_env ex_e = 6 /\ norm (shape_of ex_e) (eval_rtl ex_env ex_e) = 6
-  /\ shape_of ex_e = Sh 8 true.
+  /\ shape_of ex_e = Sh 7 true.
 Proof. vm_compute. repeat split. Qed.
 Example C01_example_env_ok : env_ok ex_env ex_e.
 Proof. cbv [env_ok ex_e ex_env in_range sgn width]. repeat split; vm_compute; congruence. Qed.
